@@ -6,9 +6,10 @@
    [clock : nat -> N] (not even monotone) and ANY event history (calls, replies of every kind to the i-th
    outstanding command, 1 ms ticks, junk, routes, connect / disconnect).  [log] is what an observer sees. *)
 From NDN Require Import Base.Prelude Base.Utf8 Model.TlvVar Model.Name Model.Tlv Spec.TlvWf.
-From NDN Require Import Model.NfdMgmt Model.Registerer Spec.Registration.
+From NDN Require Import Model.NfdMgmt Model.Registerer Spec.Registration Model.NfdEnums Spec.NfdEnums.
+From NDN Require Generated.NfdEnums.
 From NDN Require Import Proofs.NfdMgmtProofs Proofs.RegistererBase Proofs.RegistererInv Proofs.RegistererAuto
-  Proofs.RegSpecMeaning Proofs.RegProtoOk Proofs.RegistererMain.
+  Proofs.RegSpecMeaning Proofs.RegProtoOk Proofs.RegistererMain Proofs.NfdEnumsOk.
 From Coq Require Import Sorting.Sorted.
 Local Open Scope N_scope.
 
@@ -67,6 +68,36 @@ Theorem C17_dataset_roundtrip fs d ic vs w :
   parse_model d fs ic w = Ok vs.
 Proof. exact (dataset_roundtrip fs d ic vs w). Qed.
 Print Assumptions C17_dataset_roundtrip.
+
+(* ... in the form an application uses it: Cls.parse(obj.encode()) on the class's own descriptor *)
+Theorem C17_dataset_parse_wire fs vs w :
+  In fs nfd_models -> Forall2 (fun f v => fits (snd f) v) fs vs ->
+  dataset_wire fs vs = Ok w -> N.of_nat (length w) < two64 ->
+  dataset_parse fs w = Ok vs.
+Proof. exact (dataset_parse_wire fs vs w). Qed.
+Print Assumptions C17_dataset_parse_wire.
+
+(* ... and at the level of the typed attributes an application reads: for every enumerated field of the management
+   models (table regenerated from nfd_mgmt.py: Enum / Flag type and member values) and every number the management
+   protocol defines for it (a member; for the bit fields Flags / Mask every union of members, none included), reading
+   the attribute returns the encoded number - it does not raise -, and two members of a bit field can be joined with |
+   to write their union *)
+Theorem C17_enumerated_field_reads_back f v :
+  In f Generated.NfdEnums.nfd_enum_fields -> In v (domain (ef_type f) (ef_members f)) ->
+  typed_read (ef_kind f) (ef_members f) v = Ok v.
+Proof. exact (shipped_typed_read f v). Qed.
+Print Assumptions C17_enumerated_field_reads_back.
+
+Theorem C17_flags_can_be_joined f a b :
+  In f Generated.NfdEnums.nfd_enum_fields -> bitfield_type (ef_type f) = true ->
+  In a (ef_members f) -> In b (ef_members f) -> join (ef_kind f) a b = Ok (N.lor a b).
+Proof. exact (shipped_join f a b). Qed.
+Print Assumptions C17_flags_can_be_joined.
+
+(* whatever the members: a (strict) Flag type reads every union of its members *)
+Theorem C17_flag_type_reads_unions ms v : In v (unions ms) -> typed_read EFlag ms v = Ok v.
+Proof. exact (flag_reads_unions ms v). Qed.
+Print Assumptions C17_flag_type_reads_unions.
 
 (* ---- protocol ----------------------------------------------------------------------------------------------------- *)
 Section Protocol.
